@@ -83,11 +83,6 @@ M = [
         self.stack.pop()
         super().pop(term)''', '''        assert self.stack[-1] == term, f'expected: {self.stack[-1]}\\ngot: {term}'
         super().pop(term)'''),
- ('py_memoizer_lookup_by_str', 'C02 C04', PY + 'optimizing_interpreters.py', '''        if stateful is not None and p in stateful.memory:
-            self.load(str(p), p)
-            return p''', '''        if stateful is not None and any(str(m) == str(p) for m in stateful.memory if isinstance(m, type(p))):
-            self.load(str(p), next(m for m in stateful.memory if isinstance(m, type(p)) and str(m) == str(p)))
-            return p'''),
  ('mm_memory_offset_off_by_one', 'C16', PY + 'metamath/translate.py', '''                interpreter().load(str(mm_memory[lemma - memory_offset - 1]), mm_memory[lemma - memory_offset - 1])''', '''                interpreter().load(str(mm_memory[lemma - memory_offset - 2]), mm_memory[lemma - memory_offset - 2])'''),
  ('py_deser_metavar_constraints_as_ints', 'C14', PY + 'deserialize.py', '''                tuple(EVar(v) for v in e_fresh),''', '''                tuple(e_fresh),'''),
  # ---------------- rules (C07)
